@@ -12,7 +12,9 @@ def cases(draw, procs=False):
     spec = draw(gen.worlds(max_layers=4, min_layers=1 if procs else 0, hooks='layer', faults=faults,
                            nie=35 if procs else 0, kinds=gen.ALL_KINDS, max_modules=2, depth=1, max_tests=4,
                            weights_good=35, layer_decl=80, explicit_unit=True, max_children=3,
-                           excs=gen.ALL_EXCS + gen.ODD_EXCS, fault_excs=gen.ALL_EXCS[:12] + gen.ODD_EXCS + ('SkipTest', 'AssertionError'), sub_skip=True))
+                           excs=gen.ALL_EXCS + gen.ODD_EXCS, fault_excs=gen.ALL_EXCS[:12] + gen.ODD_EXCS + ('SkipTest', 'AssertionError', 'RecursionError',
+                                                                            'RecursionError', 'StopIteration', 'EOFError'),
+                           sub_skip=True))
     if draw(st.integers(0, 3)) == 0:
         spec = draw(gen.shaped_world(kinds=gen.ALL_KINDS, nie=procs))
     for L in spec['layers']:
